@@ -14,6 +14,7 @@ from rope.base import (
     codeanalyze,
     evaluate,
     exceptions,
+    fscommands,
     libutils,
     pynames,
     pyobjects,
@@ -478,7 +479,11 @@ class MoveGlobal:
 
         # Include comment lines before the definition
         start_line = lines.get_line_number(start)
-        while start_line > 1 and lines.get_line(start_line - 1).startswith("#"):
+        while (
+            start_line > 1
+            and lines.get_line(start_line - 1).startswith("#")
+            and not self._is_module_header(lines, start_line - 1)
+        ):
             start_line -= 1
         start = lines.get_line_start(start_line)
 
@@ -486,6 +491,15 @@ class MoveGlobal:
             end_line += 1
         end = min(lines.get_line_end(end_line) + 1, len(pymodule.source_code))
         return start, end
+
+    def _is_module_header(self, lines, lineno):
+        # the shebang and the coding line stay with the module
+        if lineno > 2:
+            return False
+        line = lines.get_line(lineno)
+        return (lineno == 1 and line.startswith("#!")) or (
+            fscommands.read_str_coding(line) is not None
+        )
 
     def _add_imports2(self, pymodule, new_imports):
         source = self.tools.add_imports(pymodule, new_imports)
